@@ -5,7 +5,8 @@
 (* container made after the call (node and edge counts, From/To of the touched *)
 (* nodes, periodically the whole node and edge sets); the action is enabled    *)
 (* only if the model's post-state gives the same observations.  Histories of   *)
-(* several containers are concatenated with Reset events.                      *)
+(* several containers are concatenated with Reset events (map backed types) or *)
+(* Construct events (dense types: the constructor call is part of the history).*)
 EXTENDS GraphSet, TLCExt
 
 TraceLog == ndJsonDeserialize("trace.ndjson")
@@ -26,7 +27,7 @@ Observed(e) ==
          /\ ToE(nodes', edges', e.obs[i].n)   = Rng(e.obs[i].t)
          /\ (e.obs[i].n \in nodes') = e.obs[i].live
 
-Call == /\ l <= Len(TraceLog) /\ Ev.op \notin {"Reset", "Check"}
+Call == /\ l <= Len(TraceLog) /\ Ev.op \notin {"Reset", "Check", "Construct"}
         /\ Do([op |-> Ev.op, u |-> Ev.u, v |-> Ev.v, w |-> Ev.w])
         /\ Observed(Ev)
         /\ l' = l + 1
@@ -35,6 +36,23 @@ Reset == /\ l <= Len(TraceLog) /\ Ev.op = "Reset"
          /\ nodes' = (IF Dense THEN 0 .. DenseN - 1 ELSE {})
          /\ edges' = <<>> /\ last' = "ok" /\ l' = l + 1
 
+\* dense families: a history starts with the recorded constructor call(s).  New*MatrixFrom must panic
+\* iff the ids of its node slice (in the order given: ord) are not 0..n-1 in some order; otherwise the
+\* graph has the nodes 0..n-1 and no edges (init = absent) or all of them with weight init - whatever
+\* the order of the slice was.
+Construct ==
+    /\ l <= Len(TraceLog) /\ Ev.op = "Construct"
+    /\ IF Ev.kind = "from" /\ ~IsPerm(Ev.ord)
+       THEN /\ Ev.out = "panic"
+            /\ nodes' = {} /\ edges' = <<>> /\ last' = "panic"
+       ELSE /\ Ev.out = "ok"
+            /\ nodes' = 0 .. (Ev.n - 1)
+            /\ edges' = CtorEdges(nodes', Ev.init)
+            /\ last' = "ok"
+            /\ Cardinality(nodes') = Ev.nn
+            /\ Cardinality(DOMAIN edges') = Ev.ne
+    /\ l' = l + 1
+
 \* full comparison of the abstract state with a dump of the real container
 Check == /\ l <= Len(TraceLog) /\ Ev.op = "Check"
          /\ nodes = Rng(Ev.nodes)
@@ -42,7 +60,7 @@ Check == /\ l <= Len(TraceLog) /\ Ev.op = "Check"
          /\ UNCHANGED <<nodes, edges, last>> /\ l' = l + 1
 
 TraceInit == Init /\ l = 1
-TraceNext == Call \/ Reset \/ Check
+TraceNext == Call \/ Reset \/ Construct \/ Check
 TraceSpec == TraceInit /\ [][TraceNext]_tvars
 
 \* the model invariants are evaluated at every step of the real history
